@@ -158,7 +158,7 @@ fn all_states(types: &[bool]) {
     }
 }
 
-//@ obl: id=U12.taiko.protocol.hhh harness=u12_taiko_protocol_hhh props=C15,C02,C05 tier=quick kind=bounded
+//@ obl: id=U12.taiko.protocol.hhh harness=u12_taiko_protocol_hhh props=C15,C02 tier=quick kind=bounded
 //@ fns: TaikoGradualDifficulty::next, TaikoGradualDifficulty::nth, TaikoGradualDifficulty::len, TaikoGradualDifficulty::size_hint
 //@ bound: bounded: M = 3 objects with hit (H) / non-hit (n) pattern HHH; every invariant state (each idx 0..=hits, exhausted iterator walked or not) enumerated; operation (next / nth) and the nth argument k symbolic over all usize
 //@ clause: C15 (a) len()==remaining, size_hint; (b) next() Some iff remaining>0 and consumes one; (c) nth(k) Some iff k<remaining, consumes min(k+1,remaining); (d) idx never exceeds the number of hits, len() never underflows; the i-th value has max_combo == i
@@ -166,7 +166,7 @@ stubs! { fn u12_taiko_protocol_hhh() {
     all_states(&[true, true, true]);
 } }
 
-//@ obl: id=U12.taiko.protocol.hhn harness=u12_taiko_protocol_hhn props=C15,C02,C05 tier=quick kind=bounded
+//@ obl: id=U12.taiko.protocol.hhn harness=u12_taiko_protocol_hhn props=C15,C02 tier=quick kind=bounded
 //@ fns: TaikoGradualDifficulty::next, TaikoGradualDifficulty::nth, TaikoGradualDifficulty::len, TaikoGradualDifficulty::size_hint
 //@ bound: bounded: M = 3 objects with hit (H) / non-hit (n) pattern HHn; every invariant state (each idx 0..=hits, exhausted iterator walked or not) enumerated; operation (next / nth) and the nth argument k symbolic over all usize
 //@ clause: C15 (a) len()==remaining, size_hint; (b) next() Some iff remaining>0 and consumes one; (c) nth(k) Some iff k<remaining, consumes min(k+1,remaining); (d) idx never exceeds the number of hits, len() never underflows; the i-th value has max_combo == i
@@ -174,7 +174,7 @@ stubs! { fn u12_taiko_protocol_hhn() {
     all_states(&[true, true, false]);
 } }
 
-//@ obl: id=U12.taiko.protocol.hhhh harness=u12_taiko_protocol_hhhh props=C15,C02,C05 tier=thorough kind=bounded budget=3000
+//@ obl: id=U12.taiko.protocol.hhhh harness=u12_taiko_protocol_hhhh props=C15,C02 tier=thorough kind=bounded budget=3000
 //@ fns: TaikoGradualDifficulty::next, TaikoGradualDifficulty::nth, TaikoGradualDifficulty::len, TaikoGradualDifficulty::size_hint
 //@ bound: bounded: M = 4 objects with hit (H) / non-hit (n) pattern HHHH; every invariant state (each idx 0..=hits, exhausted iterator walked or not) enumerated; operation (next / nth) and the nth argument k symbolic over all usize
 //@ clause: C15 (a) len()==remaining, size_hint; (b) next() Some iff remaining>0 and consumes one; (c) nth(k) Some iff k<remaining, consumes min(k+1,remaining); (d) idx never exceeds the number of hits, len() never underflows; the i-th value has max_combo == i
@@ -182,7 +182,7 @@ stubs! { fn u12_taiko_protocol_hhhh() {
     all_states(&[true, true, true, true]);
 } }
 
-//@ obl: id=U12.taiko.protocol.hhnh harness=u12_taiko_protocol_hhnh props=C15,C02,C05 tier=thorough kind=bounded budget=3000
+//@ obl: id=U12.taiko.protocol.hhnh harness=u12_taiko_protocol_hhnh props=C15,C02 tier=thorough kind=bounded budget=3000
 //@ fns: TaikoGradualDifficulty::next, TaikoGradualDifficulty::nth, TaikoGradualDifficulty::len, TaikoGradualDifficulty::size_hint
 //@ bound: bounded: M = 4 objects with hit (H) / non-hit (n) pattern HHnH; every invariant state (each idx 0..=hits, exhausted iterator walked or not) enumerated; operation (next / nth) and the nth argument k symbolic over all usize
 //@ clause: C15 (a) len()==remaining, size_hint; (b) next() Some iff remaining>0 and consumes one; (c) nth(k) Some iff k<remaining, consumes min(k+1,remaining); (d) idx never exceeds the number of hits, len() never underflows; the i-th value has max_combo == i
@@ -190,7 +190,7 @@ stubs! { fn u12_taiko_protocol_hhnh() {
     all_states(&[true, true, false, true]);
 } }
 
-//@ obl: id=U12.taiko.protocol.hhhn harness=u12_taiko_protocol_hhhn props=C15,C02,C05 tier=thorough kind=bounded budget=3000
+//@ obl: id=U12.taiko.protocol.hhhn harness=u12_taiko_protocol_hhhn props=C15,C02 tier=thorough kind=bounded budget=3000
 //@ fns: TaikoGradualDifficulty::next, TaikoGradualDifficulty::nth, TaikoGradualDifficulty::len, TaikoGradualDifficulty::size_hint
 //@ bound: bounded: M = 4 objects with hit (H) / non-hit (n) pattern HHHn; every invariant state (each idx 0..=hits, exhausted iterator walked or not) enumerated; operation (next / nth) and the nth argument k symbolic over all usize
 //@ clause: C15 (a) len()==remaining, size_hint; (b) next() Some iff remaining>0 and consumes one; (c) nth(k) Some iff k<remaining, consumes min(k+1,remaining); (d) idx never exceeds the number of hits, len() never underflows; the i-th value has max_combo == i
@@ -198,7 +198,7 @@ stubs! { fn u12_taiko_protocol_hhhn() {
     all_states(&[true, true, true, false]);
 } }
 
-//@ obl: id=U12.taiko.protocol.hhnn harness=u12_taiko_protocol_hhnn props=C15,C02,C05 tier=thorough kind=bounded budget=3000
+//@ obl: id=U12.taiko.protocol.hhnn harness=u12_taiko_protocol_hhnn props=C15,C02 tier=thorough kind=bounded budget=3000
 //@ fns: TaikoGradualDifficulty::next, TaikoGradualDifficulty::nth, TaikoGradualDifficulty::len, TaikoGradualDifficulty::size_hint
 //@ bound: bounded: M = 4 objects with hit (H) / non-hit (n) pattern HHnn; every invariant state (each idx 0..=hits, exhausted iterator walked or not) enumerated; operation (next / nth) and the nth argument k symbolic over all usize
 //@ clause: C15 (a) len()==remaining, size_hint; (b) next() Some iff remaining>0 and consumes one; (c) nth(k) Some iff k<remaining, consumes min(k+1,remaining); (d) idx never exceeds the number of hits, len() never underflows; the i-th value has max_combo == i
@@ -206,7 +206,7 @@ stubs! { fn u12_taiko_protocol_hhnn() {
     all_states(&[true, true, false, false]);
 } }
 
-//@ obl: id=U12.taiko.protocol.hhhnh harness=u12_taiko_protocol_hhhnh props=C15,C02,C05 tier=thorough kind=bounded budget=3000
+//@ obl: id=U12.taiko.protocol.hhhnh harness=u12_taiko_protocol_hhhnh props=C15,C02 tier=thorough kind=bounded budget=3000
 //@ fns: TaikoGradualDifficulty::next, TaikoGradualDifficulty::nth, TaikoGradualDifficulty::len, TaikoGradualDifficulty::size_hint
 //@ bound: bounded: M = 5 objects with hit (H) / non-hit (n) pattern HHHnH; every invariant state (each idx 0..=hits, exhausted iterator walked or not) enumerated; operation (next / nth) and the nth argument k symbolic over all usize
 //@ clause: C15 (a) len()==remaining, size_hint; (b) next() Some iff remaining>0 and consumes one; (c) nth(k) Some iff k<remaining, consumes min(k+1,remaining); (d) idx never exceeds the number of hits, len() never underflows; the i-th value has max_combo == i
